@@ -1,0 +1,117 @@
+//go:build verif
+// +build verif
+
+// Contracts for deductive verification (comment-only; compiled only with -tags verif).
+// A list is the slice stored under its key: elements l.Items[key][0 .. len).
+
+package list
+
+//@ spec func norm(i int, n int) int = i < 0 ? n + i : i
+//@ spec func lo(start int, n int) int = max(norm(start, n), 0)
+//@ spec func hi(end int, n int) int = min(norm(end, n), n - 1)
+//@ spec func others(l *List, key string) bool = forall k string :: k != key ==> (has(l.Items, k) == old(has(l.Items, k)) && l.Items[k] == old(l.Items[k]))
+//@ spec func sameElems(s [][]byte) bool = forall i int :: 0 <= i && i < len(s) ==> s[i] == old(s[i])
+
+//@ func New
+//@   ensures[C05] fresh(result) && fresh(result.Items) && result.Items != nil && (forall k string :: !has(result.Items, k))
+//@   modifies nothing
+//@   safety[C05,C20] panics
+
+//@ func List.Size
+//@   requires l != nil
+//@   ensures[C05] has(l.Items, key) ==> result0 == len(l.Items[key]) && result1 == nil
+//@   ensures[C05] !has(l.Items, key) ==> result0 == 0 && result1 == ErrListNotFound
+//@   modifies nothing
+//@   safety[C05,C20] panics
+//@   pure
+
+//@ func List.LPeek
+//@   requires l != nil
+//@   ensures[C05] has(l.Items, key) && len(l.Items[key]) > 0 ==> err == nil && item == l.Items[key][0]
+//@   ensures[C05] !(has(l.Items, key) && len(l.Items[key]) > 0) ==> err != nil
+//@   modifies nothing
+//@   safety[C05,C20] panics
+//@   pure
+
+//@ func List.RPeek
+//@   requires l != nil
+//@   ensures[C05] has(l.Items, key) && len(l.Items[key]) > 0 ==> err == nil && size == len(l.Items[key]) && item == l.Items[key][size - 1]
+//@   ensures[C05] !(has(l.Items, key) && len(l.Items[key]) > 0) ==> err != nil
+//@   modifies nothing
+//@   safety[C05,C20] panics
+//@   pure
+
+//@ func List.LRange
+//@   requires l != nil
+//@   ensures[C05] !has(l.Items, key) ==> err != nil
+//@   ensures[C05] err == nil ==> has(l.Items, key) && lo(start, len(l.Items[key])) <= hi(end, len(l.Items[key])) &&
+//@        len(list) == hi(end, len(l.Items[key])) - lo(start, len(l.Items[key])) + 1 &&
+//@        arr(list) == arr(l.Items[key]) && off(list) == off(l.Items[key]) + lo(start, len(l.Items[key]))
+//@   ensures[C05] has(l.Items, key) && 0 <= norm(start, len(l.Items[key])) && norm(start, len(l.Items[key])) <= norm(end, len(l.Items[key])) &&
+//@        norm(end, len(l.Items[key])) < len(l.Items[key]) ==> err == nil
+//@   modifies nothing
+//@   safety[C05,C20] panics overflow
+
+//@ func List.LPop
+//@   requires l != nil && l.Items != nil
+//@   ensures[C05] old(has(l.Items, key) && len(l.Items[key]) > 0) ==> err == nil && item == old(l.Items[key][0]) &&
+//@        has(l.Items, key) && len(l.Items[key]) == old(len(l.Items[key])) - 1 &&
+//@        (forall i int :: 0 <= i && i < len(l.Items[key]) ==> l.Items[key][i] == old(l.Items[key][i + 1]))
+//@   ensures[C05] !old(has(l.Items, key) && len(l.Items[key]) > 0) ==> err != nil && has(l.Items, key) == old(has(l.Items, key)) && l.Items[key] == old(l.Items[key])
+//@   ensures[C05] others(l, key)
+//@   modifies entries(l.Items)
+//@   safety[C05,C20] panics
+
+//@ func List.RPop
+//@   requires l != nil && l.Items != nil
+//@   ensures[C05] old(has(l.Items, key) && len(l.Items[key]) > 0) ==> err == nil && item == old(l.Items[key][len(l.Items[key]) - 1]) &&
+//@        has(l.Items, key) && len(l.Items[key]) == old(len(l.Items[key])) - 1 &&
+//@        (forall i int :: 0 <= i && i < len(l.Items[key]) ==> l.Items[key][i] == old(l.Items[key][i]))
+//@   ensures[C05] !old(has(l.Items, key) && len(l.Items[key]) > 0) ==> err != nil && has(l.Items, key) == old(has(l.Items, key)) && l.Items[key] == old(l.Items[key])
+//@   ensures[C05] others(l, key)
+//@   modifies entries(l.Items)
+//@   safety[C05,C20] panics
+
+//@ func List.LSet
+//@   requires l != nil
+//@   ensures[C05] old(has(l.Items, key)) && 0 <= index && index < old(len(l.Items[key])) ==> result == nil && l.Items[key][index] == value
+//@   ensures[C05] !old(has(l.Items, key)) ==> result == ErrListNotFound
+//@   ensures[C05] old(has(l.Items, key)) && !(0 <= index && index < old(len(l.Items[key]))) ==> result == ErrIndexOutOfRange
+//@   ensures[C05] forall i int :: 0 <= i && i < len(l.Items[key]) && !(result == nil && i == index) ==> l.Items[key][i] == old(l.Items[key][i])
+//@   modifies elems(l.Items[key])
+//@   safety[C05,C20] panics
+
+//@ func List.Ltrim
+//@   requires l != nil && l.Items != nil
+//@   ensures[C05] result == nil ==> old(has(l.Items, key)) && has(l.Items, key) &&
+//@        old(lo(start, len(l.Items[key])) <= hi(end, len(l.Items[key]))) &&
+//@        len(l.Items[key]) == old(hi(end, len(l.Items[key])) - lo(start, len(l.Items[key])) + 1) &&
+//@        (forall i int :: 0 <= i && i < len(l.Items[key]) ==> l.Items[key][i] == old(l.Items[key][lo(start, len(l.Items[key])) + i]))
+//@   ensures[C05] result != nil ==> has(l.Items, key) == old(has(l.Items, key)) && l.Items[key] == old(l.Items[key])
+//@   ensures[C05] !old(has(l.Items, key)) ==> result != nil
+//@   ensures[C05] others(l, key)
+//@   modifies entries(l.Items)
+//@   safety[C05,C20] panics
+
+//@ func List.RPush
+//@   requires l != nil && l.Items != nil
+//@   requires len(values) > 0 ==> arr(values) != arr(l.Items[key])
+//@   ensures[C05] size == old(len(l.Items[key])) + len(values) && (err == nil <==> has(l.Items, key))
+//@   ensures[C05] has(l.Items, key) == (old(has(l.Items, key)) || len(values) > 0)
+//@   ensures[C05] has(l.Items, key) ==> len(l.Items[key]) == size
+//@   ensures[C05] forall i int :: 0 <= i && i < old(len(l.Items[key])) ==> l.Items[key][i] == old(l.Items[key][i])
+//@   ensures[C05] forall i int :: 0 <= i && i < len(values) ==> l.Items[key][old(len(l.Items[key])) + i] == values[i]
+//@   ensures[C05] others(l, key)
+//@   modifies entries(l.Items), elems(l.Items[key])
+//@   safety[C05,C20] panics
+//@   loops 1
+//@   loop 1: modifies entries(l.Items), elems(l.Items[key])
+//@   loop 1: invariant -1 <= rangeindex && rangeindex < len(values) && l == old(l) && key == old(key) && values == old(values)
+//@   loop 1: invariant len(l.Items[key]) == old(len(l.Items[key])) + rangeindex + 1
+//@   loop 1: invariant rangeindex >= 0 ==> has(l.Items, key)
+//@   loop 1: invariant rangeindex < 0 ==> has(l.Items, key) == old(has(l.Items, key)) && l.Items[key] == old(l.Items[key])
+//@   loop 1: invariant len(values) > 0 ==> arr(l.Items[key]) != arr(values)
+//@   loop 1: invariant arr(l.Items[key]) == old(arr(l.Items[key])) || fresh(l.Items[key])
+//@   loop 1: invariant forall i int :: 0 <= i && i < old(len(l.Items[key])) ==> l.Items[key][i] == old(l.Items[key][i])
+//@   loop 1: invariant forall i int :: 0 <= i && i <= rangeindex ==> l.Items[key][old(len(l.Items[key])) + i] == values[i]
+//@   loop 1: invariant others(l, key)
